@@ -65,11 +65,11 @@ func refBaseFee(b *big.Int, used uint64, maxGas int64, minFloor *big.Int) (*big.
 }
 
 type c09GridCase struct {
-	BaseFee string `json:"base_fee"`
-	MaxGas  int64  `json:"max_gas"`
-	Used    uint64 `json:"gas_used"`
-	MinGas  string `json:"min_gas_price"`
-	NilBlock bool  `json:"nil_block_params,omitempty"`
+	BaseFee  string `json:"base_fee"`
+	MaxGas   int64  `json:"max_gas"`
+	Used     uint64 `json:"gas_used"`
+	MinGas   string `json:"min_gas_price"`
+	NilBlock bool   `json:"nil_block_params,omitempty"`
 }
 
 func pow2(n uint) *big.Int { return new(big.Int).Lsh(big.NewInt(1), n) }
@@ -101,7 +101,7 @@ func c09Grid() []c09GridCase {
 			}
 			if mg <= 0 {
 				us[21000] = true
-				us[1 << 40] = true
+				us[1<<40] = true
 			}
 			for u := range us {
 				for _, m := range mins {
